@@ -1309,3 +1309,32 @@ def _searchsorted(I, a, k):
     vt = term(v)
     A.note_fact(r >= 0, r <= n, z3.Implies(r > 0, s((r - 1,)) < vt), z3.Implies(r < n, vt <= s((r,))))
     return wrap(r)
+
+
+@model(np.median)
+def _median(I, a, k):
+    """A-NP-SPEC: the median is opaque (an order statistic); logged as a reduction"""
+    if not _anysym(a, k):
+        return NotImplemented
+    x = A.as_sarr(a[0])
+    axis = k.get("axis", a[1] if len(a) > 1 else None)
+    dt = x.dtype if x.dtype.kind == "f" else np.dtype("float64")
+    return _unbox(A.reduce_axis(x, axis, "median", dt, None))
+
+
+@model(np.unique)
+def _unique(I, a, k):
+    if not _anysym(a, k):
+        return NotImplemented
+    raise Unsupported("np.unique of a symbolic array")
+
+
+@model(np.hanning)
+def _hanning(I, a, k):
+    if not _anysym(a, k):
+        return NotImplemented
+    n = term(a[0])
+    f = z3.Function(fresh_name("hanning"), z3.IntSort(), z3.RealSort())
+    arr = SArr(np.float64, (A.dim(n),), lambda idx: f(idx[0]))
+    arr.facts_on_read = lambda idx, t: [t >= 0, t <= 1]
+    return arr
